@@ -53,6 +53,33 @@ def dump_history(chk, program, consts, sf, cf):
                       expected=f"returned, {want} dump line(s) (the dump filter names the id {ID})", found={'status': status, 'lines': w},
                       detail='' if (status == 'returned' and w == want) else 'the dump decision for this message is wrong at this point of the history (a verdict remembered from an earlier message of that PGN number, or an id test that does not match the id as the filter stores it)')
 
+def dump_history_unfiltered(chk, program, consts, sf, cf):
+    """the same with no dump filter (everything returned is dumped, once) and one definition excluded by id: the excluded message leaves no line,
+    a returned one exactly one"""
+    from .. import absint as A_
+    db = program.db
+    ordinary = [d for d in db.defs if not d.group.complex and d.pgn != consts['ISO_CLAIM_PGN'] and d.id != d.id.lower() and len(d.group.defs) == 1]
+    P, ID = ordinary[0].pgn, ordinary[0].id
+    OTHER = 'anotherDefinitionOfThatNumber'
+    class _F:
+        pass
+    fn = program.fn('decoder', 'NMEA2000Decoder._call_decode_function')
+    try:
+        attrs = F.runtime_attrs(program, sf, cf, consts, [OTHER], [], ())
+        dp = F.DecodePath(program, attrs, consts, extra_self={'dump_TextIOWrapper': _F()})
+        rep = []
+        for mid in (OTHER, ID, OTHER, ID):
+            r = dp.feed(P, mid, src=7)
+            rep.append((mid, r['status'], r['writes']))
+    except (A_.Unknown, A_.RaiseSignal, teval.EvalUnknown, KeyError, AttributeError, TypeError, AnalysisError) as u:
+        chk.unit('dump_history_unfiltered_not_interpretable', f"{type(u).__name__}: {u}"[:160])
+        return
+    for k, (mid, status, w) in enumerate(rep):
+        want = ('returned', 1) if mid == ID else ('filtered', 0)
+        chk.check((status, w) == want, 'DUMP-GUARD', f"history::no-dump-filter,one-id-excluded::step{k + 1}", file=DEC, line=fn.lineno, func='_call_decode_function',
+                  expected=f"{want[0]}, {want[1]} dump line(s)", found={'status': status, 'lines': w},
+                  detail='' if (status, w) == want else 'a message the filters withhold is written to the dump, or a returned message is written twice')
+
 def run(chk, program, tier):
     for r, t in (('DUMP-GUARD', 'dump decision table'), ('DUMP-NORM', 'LOWER probe against the lower-cased dump id list'), ('DUMP-TEXT', 'json + newline, append mode, closed'),
                  ('JSON-TYPES', 'default hook covers non-native types'), ('JSON-BACK', 'from_json rebuilds message and fields'), ('JSON-RAW-FIRST', 'encoders prefer raw values')):
@@ -60,6 +87,7 @@ def run(chk, program, tier):
     consts = F.module_consts(program)
     sf, cf = F.facts_or_none(program)
     dump_history(chk, program, consts, sf, cf)
+    dump_history_unfiltered(chk, program, consts, sf, cf)
     stages = {'_decode': F.stage_events(program, '_decode'), '_call_decode_function': F.stage_events(program, '_call_decode_function')}
     fn, ex = stages['_call_decode_function']
     writes = [(i, e) for i, e in enumerate(ex.events) if e[0] == 'expr' and e[2][0] == 'call' and e[2][1][0] == 'attr' and e[2][1][2] == 'write'
